@@ -12,10 +12,11 @@ EXTENDS Manager, Json
 CONSTANTS MaxLen
 VARIABLES vMgr, vReqs
 
-Pats == <<Cp("Foo*"), Cp("foo*"), Cp("foo")>>
+\* equal up to case / wildcard, and pairs that collide if the case flag is folded into the pattern text
+Pats == <<Cp("Foo*"), Cp("foo*"), Cp("foo"), Cp("ifoo*"), Cp("foo*i")>>
 FilesP == <<Cp("A"), Cp("B")>>
 Terms == << <<cLF>>, <<0>>, <<>> >>
-Reqs == {[r |-> "matcher", pat |-> Pats[p], ci |-> c] : p \in 1..3, c \in BOOLEAN}
+Reqs == {[r |-> "matcher", pat |-> Pats[p], ci |-> c] : p \in 1..Len(Pats), c \in BOOLEAN}
         \cup {[r |-> "printer", term |-> Terms[t]] : t \in 1..3}
         \cup {[r |-> "fprinter", file |-> FilesP[f], term |-> Terms[t]] : f \in 1..2, t \in 1..3}
 
